@@ -515,8 +515,20 @@ func runCheckOne(args []string) int {
 			}
 			return seenUntagged[st]
 		}
+		// (and an obligation at a call that has moved, with the statements around it, into a helper that is new since the
+		// contracts were written is generated under the helper's name)
+		inNewHelper := map[string]bool{}
+		for n := range seen {
+			if i := strings.Index(n, "#"); i > 0 && shapeNewFuncs[n[:i]] {
+				inNewHelper[occurrenceStem(n[i:])] = true
+			}
+		}
+		moved := func(n string) bool {
+			i := strings.Index(n, "#")
+			return i > 0 && inNewHelper[occurrenceStem(n[i:])]
+		}
 		for _, n := range base.Claimed {
-			if !seen[n] && !isSweepName(n) && !(occurrenceStem(n) != n && seenStem[occurrenceStem(n)]) && !retagged(n) {
+			if !seen[n] && !isSweepName(n) && !(occurrenceStem(n) != n && seenStem[occurrenceStem(n)]) && !retagged(n) && !moved(n) {
 				violations++
 				claimed++
 				path := writeReplayFile(*prop, n, "obligation missing: the function or clause under contract is no longer present in the tree (or the contract no longer attaches)", "")
@@ -585,6 +597,10 @@ func runCheckOne(args []string) int {
 		b, _ := json.MarshalIndent(nb, "", " ")
 		os.WriteFile(filepath.Join(verifDir, "baseline", *prop+".json"), append(b, '\n'), 0o644)
 		fmt.Printf("%s: baseline written: %d claimed, %d unclaimed\n", *prop, len(nb.Claimed), len(nb.Unclaimed))
+		// the names the contracts rely on are recorded with the baseline
+		if os.Getenv("GOVC_REPO") == "" {
+			runShape(nil)
+		}
 	}
 	agreed := 0
 	for _, o := range sel {
